@@ -2,6 +2,7 @@
 import sys
 
 from sa import report, effects as E, rules_fault as RF, rules_state as RS, rules_read as RD, rules_registry as RR
+from sa import rules_extra as RX
 
 
 def run(ctx, repo):
@@ -25,7 +26,8 @@ def run(ctx, repo):
     E.r_global_readonly(ctx, repo)
     RR.r_cow(ctx, repo)
     RR.r_sole_writer(ctx, repo)
-
+    RX.r_no_process_state(ctx, repo)
+    RX.r_dispose_chain(ctx, repo, ['loader.SafeLoader', 'loader.FullLoader', 'loader.Loader', 'cyaml.CSafeLoader', 'cyaml.CLoader', 'dumper.SafeDumper', 'dumper.Dumper', 'cyaml.CSafeDumper', 'cyaml.CDumper'])
 
 if __name__ == '__main__':
     sys.exit(report.main('C19', 'proof', run))
